@@ -202,6 +202,14 @@ def run(ctx):
     scs.append(seq_scenario([["xxh64", "md5"], ["xxh64", "sha1"]]))
     scs.append(seq_scenario([["xxh64", "md5"], ["xxh64", "sha1"]], mode="sf"))
     scs += renamed_scenarios()
+    # project / day / camera / card: a file of the innermost history altered, sealed from the top
+    deep = {"root": "project", "profile": "c04-four-levels", "tree": {"day1/camA/card1/clip.mov": "clip", "day1/camA/card1/sub/x.mov": "x", "day1/camA/notes.txt": "n", "day1/d.txt": "d", "p.txt": "p"},
+            "ops": [{"op": "create", "at": at, "h": ["md5"], "now": "2026-03-01 12:00:0%d" % i} for i, at in enumerate(["day1/camA/card1", "day1/camA", "day1"])]
+                   + [{"op": "write", "path": "day1/camA/card1/clip.mov", "data": "ALTERED"},
+                      {"op": "create", "at": "", "h": ["md5"], "now": "2026-03-01 12:00:06"}, {"op": "verify", "at": ""}, {"op": "write", "path": "day1/camA/card1/clip.mov", "data": "clip"},
+                      {"op": "create", "at": "", "h": ["sha1"], "now": "2026-03-01 12:00:07"}, {"op": "verify", "at": ""}],
+            "c04r": {"path": "day1/camA/card1/clip.mov", "expect": [0, 0, 0, None, 11, 11, None, 0, 0]}}
+    scs.append(deep)
     for md in ("folder", "sf"):
         for nst in (False, True):
             scs.append(seq_scenario([["md5"], ["md5", "sha1"], ["xxh64"]], mode=md, nested=nst, casetwin=1))
